@@ -11,7 +11,7 @@ cd /verif
 for P in "$@"; do
     OUT=$(VERIF_RUNS="${VERIF_RUNS:-}" ./check "$P" quick 2>&1); RC=$?
     echo "== $P exit=$RC"
-    echo "$OUT" | grep -E "^violation|^VIOLATION|HARNESS|^runs=" | cut -c1-330
+    echo "$OUT" | grep -aE "^violation|^VIOLATION|HARNESS|^runs=" | cut -c1-330
 done
 git -C /repo checkout -- .
 rm -f /verif/replays/*.trace
